@@ -1,6 +1,8 @@
 """C16 — the LCD filter simplifies style and layout but keeps the text timeline.
 
 Theorems: coq/Properties/C16.v (rose-tree induction over the transcription coq/Model/Lcd.v; S = coq/Spec/LcdSpec.v).
+M follows /repo at fix a7b547e (bg_color without body) and fix c0beb1f (end=0 in the fingerprint); their witnesses are
+regression witnesses in harness/witnesses_c16.py.
 Tie: random documents (docgen.Gen, then regions re-dressed here with origin / position / extent in every unit,
 writing modes, colliding timings, several animation steps per element) x configurations (safe_area 0/5/10/30,
 preserve_text_align, color, bg_color).  LCDDocFilter(config).process(doc) is run on the real objects; inside Coq
@@ -18,23 +20,11 @@ import common as C
 PROP = "C16"
 HEADER = ("From TT Require Import Model.Doc Gen.StyleTables Model.Isd Model.IsdCases Model.Lcd Spec.IsdSpec Spec.LcdSpec Model.LcdCases.\n"
           "Open Scope Z_scope.\n")
-EXN = {"AttributeError": 2, "AssertionError": 2, "ValueError": 2, "TypeError": 3}
+EXN = {"AttributeError": 2, "AssertionError": 2, "ValueError": 2}      # anything else: 99 (the model has no such outcome)
 STATIC = ["no animation step", "style whitelist", "safe area", "merged regions pairwise different", "references redirected",
           "filter succeeds", "model on the implementation's result is the identity"]
-FINDINGS = ["lcd-position", "lcd-bg-no-body", "lcd-position-survives", "lcd-region-end-zero",
-            "lcd-nested-region-conflict", "lcd-preserve-text-align-merge"]
-TRIGS = ["position", "nobody", "position_content", "end_zero", "nested", "no_hiding", "wf", "tie"]
-
-
-def load_proposed(run):
-    """findings proposed by this check but not yet merged into KNOWN_FINDINGS.txt are honoured too"""
-    p = C.VERIF + f"/findings_proposed/{PROP}.txt"
-    have = {f["id"] for f in run.findings}
-    if os.path.exists(p):
-        for line in open(p, encoding="utf-8"):
-            m = re.match(r"finding\s+property=(\S+)\s+id=(\S+)\s+what=(.*)", line.strip())
-            if m and m.group(1) == PROP and m.group(2) not in have:
-                run.findings.append(dict(property=PROP, id=m.group(2), what=m.group(3)))
+FINDINGS = ["lcd-position", "lcd-position-survives", "lcd-nested-region-conflict", "lcd-preserve-text-align-merge"]
+TRIGS = ["position", "position_content", "nested", "no_hiding", "wf", "tie"]
 
 
 # ------------------------------------------------------------------ documents and configurations
@@ -201,9 +191,9 @@ def one_case(args):
                  f"[same_key_order (lcd c{n} d{k}) o{n}]",
                  f"case_static c{n} d{k} o{n}", f"case_strict c{n} d{k} o{n}",
                  f"case_timeline c{n} d{k} o{n} t{k}", f"case_timeline_strict d{k} o{n} t{k}", f"case_computed c{n} o{n} t{k}",
-                 f"[trig_position d{k}; trig_nobody c{n} d{k}; trig_position_content d{k}; trig_end_zero d{k}; trig_nested c{n} d{k}; "
+                 f"[trig_position d{k}; trig_position_content d{k}; trig_nested c{n} d{k}; "
                  f"no_hiding_b d{k}; wf_doc_b d{k}; lcd_outcome_close (lcd c{n} d{k}) o{n}]"]
-        counts = [1, 1, len(STATIC), 3, len(ts), len(ts), len(ts), len(TRIGS)]
+        counts = [1, 1, len(STATIC), 2, len(ts), len(ts), len(ts), len(TRIGS)]
         out.append(((k, j), defs, slots, counts, obs))
     return dict(k=k, cases=out, times=[str(t) for t in ts], src=src)
 
@@ -230,15 +220,9 @@ def finding_witnesses():
     rs[0].set_style(SP.Position, s.PositionType(L(10, U.pct), L(10, U.pct))); rs[0].set_style(SP.Extent, s.ExtentType(L(80, U.pct), L(80, U.pct)))
     e = run_filter(d, dflt)
     res["lcd-position"] = None if e is None else f"region with tts:position 10% 10% and tts:extent 80% 80%: {type(e).__name__}"
-    d = m.ContentDocument()
-    e = run_filter(d, dict(dflt, bg_color=s.NamedColors.red.value))
-    res["lcd-bg-no-body"] = None if e is None else f"document without body, bg_color=red: {type(e).__name__}: {e}"
     d, rs, b, dv, p, sp = mk(); p.set_style(SP.Position, s.PositionType(L(10, U.pct), L(10, U.pct)))
     run_filter(d, dflt)
     res["lcd-position-survives"] = "tts:position on a p is still there after the filter" if p.get_style(SP.Position) is not None else None
-    d, rs, b, dv, p, sp = mk(2); dv.set_region(rs[1]); rs[0].set_end(F(0))
-    bef = texts(d, 1); run_filter(d, dflt); aft = texts(d, 1)
-    res["lcd-region-end-zero"] = None if bef == aft else f"region r0 end=0, text in r1: visible at t=1 before {bef}, after {aft}"
     d, rs, b, dv, p, sp = mk(2); dv.set_region(rs[0]); p.set_region(rs[1])
     bef = texts(d, 0); run_filter(d, dflt); aft = texts(d, 0)
     res["lcd-nested-region-conflict"] = None if bef == aft else f"<div region=r0><p region=r1>: visible at t=0 before {bef}, after {aft}"
@@ -252,7 +236,6 @@ def finding_witnesses():
 # ------------------------------------------------------------------ the check
 def main():
     run = C.Run(PROP, "proof")
-    load_proposed(run)
     run.hygiene()
     sys.path.insert(0, C.SRC)
     import gen_tables, isdcore
@@ -271,7 +254,7 @@ def main():
     wit = finding_witnesses(); stale = []
     unlisted_ids = [f for f in FINDINGS if f not in {x["id"] for x in run.findings}]
     if unlisted_ids:
-        run.violation("findings used by the check but listed neither in KNOWN_FINDINGS.txt nor in findings_proposed/C16.txt: " + ", ".join(unlisted_ids),
+        run.violation("findings used by the check but not listed in KNOWN_FINDINGS.txt: " + ", ".join(unlisted_ids),
                       dict(kind="unlisted-findings", ids=unlisted_ids), False)
     for fid in FINDINGS:
         if wit.get(fid): run.known(fid, "witness: " + wit[fid])
@@ -351,15 +334,13 @@ def main():
     excused = {(cid, i) for cid, i in strict_bad}
     for cid, i in strict_bad:
         if i == 0: fired["lcd-position-survives"] += 1
-        elif i == 1: fired["lcd-region-end-zero"] += 1
-        elif i == 2:
+        elif i == 1:
             if (cid, 5) in {(c, x) for c, x in static_bad}: continue     # not excused: already a violation
             if T(cid, "position"): fired["lcd-position"] += 1
-            elif T(cid, "nobody"): fired["lcd-bg-no-body"] += 1
     tl_bad_set = set(tl_bad)
     for cid, i in tl_strict:
         if (cid, i) in tl_bad_set: continue
-        fired["lcd-region-end-zero" if T(cid, "end_zero") else "lcd-nested-region-conflict"] += 1
+        fired["lcd-nested-region-conflict"] += 1
     # ---- timeline (Coq, TTML2 leaf specification on source and result)
     for cid, i in tl_bad[:1]:
         s_fail = True
@@ -375,10 +356,9 @@ def main():
     for cid, (obs, r) in info.items():
         if obs["exc"] is not None: continue
         if obs["leaves_bad"] and T(cid, "no_hiding"):
-            if T(cid, "end_zero"): fired["lcd-region-end-zero"] += 1
-            elif T(cid, "nested"): fired["lcd-nested-region-conflict"] += 1
+            if T(cid, "nested"): fired["lcd-nested-region-conflict"] += 1
             else: py_tl.append(cid)
-        if obs["leaves_lost"] and not T(cid, "end_zero") and cid not in py_tl: py_tl.append(cid)      # nothing visible may be lost, hiding or not
+        if obs["leaves_lost"] and cid not in py_tl: py_tl.append(cid)      # nothing visible may be lost, hiding or not
         if obs["twice"] is not None: py_twice.append(cid)
         if obs["computed_bad"]: py_comp.append(cid)
         if obs["align_bad"]:
@@ -440,7 +420,7 @@ def main():
     run.assumptions += ["documents are well formed (C15): region identity is modelled by xml:id, style dictionaries have unique keys",
                         "the implementation compares origin / origin+extent with 50 in binary floating point when a length was given in c or px; "
                         "a model/code disagreement is excused only when such a quantity is within 1e-6 of 50 (counted as float_tie_cases_excused)",
-                        "exception classes are compared as AttributeError/AssertionError/ValueError -> 2, TypeError -> 3"]
+                        "exception classes are compared as AttributeError/AssertionError/ValueError -> 2 (the only failure the model has), anything else never matches"]
     return run.finish(["harness/isdlit.py (Python objects -> Gallina literals)", "harness/docgen.py + harness/c16.py redress (input generator)",
                        "harness/gen_core.py (style tables translator)", "copy.deepcopy of a ContentDocument yields an equal document (checked per case through doc_lit)"])
 
